@@ -24,11 +24,43 @@ pub fn build(case: &Case) -> (Vec<(String, u16, Shape)>, Vec<Rule>) {
     let mut spec = Vec::new();
     let mut rules = Vec::new();
     for (i, s) in case.shapes.iter().enumerate() {
-        let rank = rank_of(case.rank_pattern, i);
-        spec.push((IDS[i].to_string(), rank, *s));
-        rules.push(s.to_rule(IDS[i], rank, "/p"));
+        // long lists (count thresholds): generated ids, ranks distinct (pattern 0), tied (1) or ascending
+        let (id, rank) = if case.shapes.len() > IDS.len() {
+            (format!("n{i:03}"), match case.rank_pattern { 0 => 1000 - i as u16, 1 => 5, _ => 1 + i as u16 })
+        } else {
+            (IDS[i].to_string(), rank_of(case.rank_pattern, i))
+        };
+        spec.push((id.clone(), rank, *s));
+        rules.push(s.to_rule(&id, rank, "/p"));
     }
     (spec, rules)
+}
+
+/// many matched rules at once: 70 / 130 / 260 rules cycling through a few simple shapes, with one reset / stop / sampled-out rule
+/// at a varying position
+pub fn long_lists() -> Vec<Vec<Shape>> {
+    use Cond::*;
+    use Control::*;
+    use Payload::*;
+    let cycle = [
+        Shape { cond: None, control: Plain, payload: HeaderAdd },
+        Shape { cond: Include404, control: Plain, payload: BodyAppend },
+        Shape { cond: None, control: Plain, payload: Redirect301 },
+        Shape { cond: Exclude404, control: Plain, payload: HeaderOverrideShared },
+        Shape { cond: None, control: Plain, payload: LogFalse },
+        Shape { cond: Include404_500, control: Plain, payload: Status404 },
+    ];
+    let mut out = Vec::new();
+    for n in [70usize, 130, 260] {
+        let base: Vec<Shape> = (0..n).map(|i| cycle[i % cycle.len()]).collect();
+        out.push(base.clone());
+        for (pos, control) in [(n / 2, Reset), (n / 3, Stop), (n - 1, ResetSampling0), (65, Reset), (128.min(n - 1), Stop)] {
+            let mut l = base.clone();
+            l[pos.min(n - 1)].control = control;
+            out.push(l);
+        }
+    }
+    out
 }
 
 /// the same action built with a unit trace (the entry the explain / impact / test-example analyses use)
@@ -211,6 +243,7 @@ pub fn run(tier: Tier) -> i32 {
             work.extend(lists(&small, 4));
         }
     }
+    work.extend(long_lists());
     let outcomes = DistinctSet::new();
     let nontrivial = DistinctSet::new();
     let samples = Samples::new(6);
@@ -223,7 +256,7 @@ pub fn run(tier: Tier) -> i32 {
         }
         let shapes = &work[i];
         // (for two rules "first two tied" is "all tied")
-        let rank_patterns: &[usize] = if shapes.len() <= 1 { &[0] } else if shapes.len() == 2 { &[0, 1, 3] } else { &[0, 1, 2, 3] };
+        let rank_patterns: &[usize] = if shapes.len() <= 1 { &[0] } else if shapes.len() == 2 || shapes.len() > 5 { &[0, 1, 3] } else { &[0, 1, 2, 3] };
         for &rank_pattern in rank_patterns {
             for sampling_override in OVERRIDES {
                 let via_router = (i + rank_pattern) % 64 == 0;
